@@ -349,7 +349,7 @@ def gen_world(rng, *, convs=CONVS, max_n=5, max_faces=10, max_vars=5, allow_hole
         kinds = ['face', 'node'] + (['edge'] if has_edges else [])
     spec['vars'] = _gen_vars(rng, kinds, max_vars, extra_pool, allow_perm=allow_perm,
                              min_vars=min_vars)
-    spec['materialise'] = materialise or rng.choice(['memory', 'memory', 'file', 'file_raw', 'chunked'])
+    spec['materialise'] = materialise or rng.choice(['memory', 'memory', 'file', 'file_raw', 'chunked', 'chunked_auto'])
     spec['file_fill_style'] = rng.choice([None, None, 'xarray_default', 'hole_fill'])
     return spec
 
